@@ -8,15 +8,18 @@ def parseKind (s : String) : Option Kind :=
 
 def kindStr : Kind → String | .btc => "btc" | .evm => "evm" | .sub => "sub"
 
-/-- `head:fail:store[:crash]`; head = int | E | F ; returns the round and the crash field -/
+/-- `head:fail:store[:crash]`; head = int | E | F ; returns the round and the crash field.
+    `fail = p<i>`: handler `i` PANICS. The model of a panic is the death of the process at that point: handler `i`
+    was invoked and did not return nil (`fail = some i`), and nothing happens after it (`crash = some (i+1)`). -/
 def parseRound (s : String) : Option (Round × Option Nat) :=
   match s.splitOn ":" with
   | hd :: fl :: st :: rest => do
     let head ← if hd = "E" || hd = "F" then some none else (hd.toInt?).map some
-    let fail ← if fl = "n" then some none else (fl.toNat?).map some
+    let pan ← if fl.startsWith "p" then ((fl.drop 1).toString.toNat?).map some else some none
+    let fail ← if fl = "n" then some none else if pan.isSome then some pan else (fl.toNat?).map some
     let ok ← if st = "s" then some true else if st = "x" then some false else none
     let crash ← match rest with
-      | [] => some none
+      | [] => some (pan.map (· + 1))
       | [c] => (c.toNat?).map some
       | _ => none
     pure (⟨head, fail, ok⟩, crash)
@@ -72,8 +75,43 @@ def retryVerdict (name : String) (head : Option Int) (ready : Int → Bool) (con
     let ok := if processed then confirmedB l && (impl == okOut || !exact) else true
     ⟨m, ok, s!"{name}:ready={ready l}"⟩
 
+/-- one step of a sequence on shared objects, evaluated with the ORIGINAL confirmations: model output and the
+    property predicate for that step's implementation output -/
+def seqStep (kind : Kind) (conf k : Int) (step : String) : Option (String × (String → Bool)) :=
+  match step.splitOn "," with
+  | ["r", latest, h] => do
+    let l ← latest.toInt?
+    let h ← h.toInt?
+    let okOut := s!"proc:{h}.{h}"
+    pure (if retryReady l h conf then okOut else "err",
+          fun impl => if impl != "err" then decide (conf ≤ l - h) && impl == okOut else true)
+  | ["t", latest, r] => do
+    let l ← latest.toInt?
+    let r ← r.toInt?
+    pure (if retryReady l r conf then "ok:2" else "err", fun impl => if impl != "err" then decide (conf ≤ l - r) else true)
+  | ["s", head, start] => do
+    let hd ← head.toInt?
+    let st ← parseStart start
+    let cfg : Cfg := ⟨kind, k, conf, 1⟩
+    let rs : List Round := [⟨some hd, none, true⟩]
+    pure (showRun (run cfg st rs), fun impl => match parseRun impl with
+      | some os => traceOk cfg st rs os
+      | none => false)
+  | _ => none
+
 def handle (op : String) (args : List String) (impl : String) : Option Verdict :=
   match op, args with
+  | "seq", [kind, conf, k, steps] => some <| Id.run do
+    let some kind := parseKind kind | return bad
+    let some conf := conf.toInt? | return bad
+    let some k := k.toInt? | return bad
+    let some ss := (items steps ";").mapM (seqStep kind conf k) | return bad
+    let m := "|".intercalate (ss.map (·.1))
+    let outs := impl.splitOn "|"
+    let ok := outs.length == ss.length && (ss.zip outs).all fun (st, o) => st.2 o
+    let accepted := ss.any fun st => st.1.startsWith "proc" || st.1.startsWith "ok"
+    let scanned := ss.any fun st => (st.1.splitOn "/S").length > 1
+    return ⟨m, ok, s!"seq:{kindStr kind}:n={min ss.length 4}:accepted={accepted}:scanned={scanned}"⟩
   | "scan", [kind, conf, k, nh, start, rounds] => some <| Id.run do
     let some kind := parseKind kind | return bad
     let some conf := conf.toInt? | return bad
